@@ -37,6 +37,13 @@ impl InputPlugin for GridSearchPlugin {
                         multiset_indices.push(indices);
                     }
                 }
+                // a grid needs at least one axis and every axis at least one option; anything
+                // else cannot be enumerated (MultiSet would index out of bounds or never finish)
+                if multiset_indices.is_empty() || multiset_indices.iter().any(|s| s.is_empty()) {
+                    return Err(InputPluginError::InputPluginFailed(String::from(
+                        "grid search section must contain at least one array-valued field and no empty arrays",
+                    )));
+                }
                 // for each combination, copy the grid search values into a fresh
                 // copy of the source (minus the "grid_search" key)
                 // let remove_key = InputField::GridSearch.to_str();
